@@ -10,8 +10,8 @@ with renamed locals - on the real `elk`, (3) the extracted model (checker verdic
 run Dynamic).
 
 Program representation = the s-expression fed to the model, nested Python lists of strings:
-  expr  ['n', k] | ['v', x] | ['+', a, b] | ['u', e]
-  stmt  'skip' | ['seq', s...] | ['let', x, e] | ['set', x, e] | ['pr', e] | ['blk', s] | ['if', c, t, e]
+  expr  ['n', k] | ['v', x] | ['+', a, b] | ['u', e] | ['let', x, e] | ['set', x, e]   (binders/assignments as operands)
+  stmt  'skip' | ['seq', s...] | ['let', x, e] | ['set', x, e] | ['ex', e] | ['pr', e] | ['blk', s] | ['if', c, t, e]
       | ['mac', s] | ['us', s]
 Names are decimal strings; names < K (= 100) are source names, x + K*2^j are the renamings made by expand_all.
 """
@@ -73,6 +73,10 @@ def plain_expr(e):
         return "(%s + %s)" % (plain_expr(e[1]), plain_expr(e[2]))
     if k == "u":
         return plain_expr(e[1])
+    if k == "let":
+        return "(%s := %s)" % (ident(e[1]), plain_expr(e[2]))
+    if k == "set":
+        return "(%s = %s)" % (ident(e[1]), plain_expr(e[2]))
     raise ValueError(e)
 
 
@@ -126,6 +130,10 @@ class Printer:
                 return self.expr(e[1], None)
             splices.append(plain_expr(e[1]))
             return "!{u%d}" % (len(splices) - 1)
+        if k == "let":
+            return "(%s := %s)" % (ident(e[1]), self.expr(e[2], splices))
+        if k == "set":
+            return "(%s = %s)" % (ident(e[1]), self.expr(e[2], splices))
         raise ValueError(e)
 
     def one_line(self, s):
@@ -137,6 +145,8 @@ class Printer:
             return "%s = %s" % (ident(s[1]), plain_expr(s[2]))
         if k == "pr":
             return "println(%s.inspect)" % plain_expr(s[1])
+        if k == "ex":
+            return plain_expr(s[1])
         if k == "mac":
             return "%s!()" % self.macro_name(s[1])
         if k == "us":
@@ -160,6 +170,8 @@ class Printer:
             return [p + "%s = %s" % (ident(s[1]), self.expr(s[2], splices))]
         if k == "pr":
             return [p + "println(%s.inspect)" % self.expr(s[1], splices)]
+        if k == "ex":
+            return [p + self.expr(s[1], splices)]
         if k == "blk":
             return [p + "do"] + self.block(s[1], ind + 1, splices) + [p + "end"]
         if k == "if":
@@ -189,10 +201,11 @@ def elk_program(prog, in_method):
 # ------------------------------------------------------------------ generator
 
 class Gen:
-    def __init__(self, rng, unhyg, outer):
+    def __init__(self, rng, unhyg, outer, binders=0):
         self.r = rng
         self.unhyg = unhyg          # allow unhygienic splices
         self.outer = list(outer)    # names the generator assumes the caller defines
+        self.binders = binders      # chance (in tenths) that an expression binds / assigns in a nested position
         self.dist = {}
 
     def count(self, k):
@@ -230,10 +243,94 @@ class Gen:
             return ["v", self.r.choice(POOL)]      # may be unresolvable: the checker must reject
         return ["n", str(self.r.below(9))]
 
-    def expr(self, scopes, outer, forced_unhyg=False):
+    def declare(self, scopes, x):
+        if x not in scopes[-1]:
+            scopes[-1].append(x)
+
+    def binder(self, scopes, outer, forced_unhyg, depth):
+        """an expression with `(x := e)` / `(x = e)` in a nested position; operands are generated left to right
+        and a binder declares x in the CURRENT frame (scopes[-1] is mutated) for everything evaluated later"""
+        c = self.r.below(12)
+        init = lambda: (self.binder(scopes, outer, forced_unhyg, depth - 1) if depth > 0 and self.r.chance(1, 4)
+                        else self.operand(scopes, outer, forced_unhyg))
+        if c < 4:                                    # (x := e) + e'   -- e' usually reads x
+            x = self.r.choice(POOL)
+            self.count("expr_let_left")
+            b = ["let", x, init()]
+            self.declare(scopes, x)
+            rest = ["v", x] if self.r.chance(2, 3) else self.atom(scopes, outer, forced_unhyg)
+            return ["+", b, rest]
+        if c < 6:                                    # e' + (x := e)
+            x = self.r.choice(POOL)
+            self.count("expr_let_right")
+            left = self.atom(scopes, outer, forced_unhyg)
+            b = ["let", x, init()]
+            self.declare(scopes, x)
+            return ["+", left, b]
+        if c < 7:                                    # (x := (y := e))  as an operand / argument / condition
+            x, y = self.r.choice(POOL), self.r.choice(POOL)
+            self.count("expr_let_let")
+            b = ["let", y, init()]
+            self.declare(scopes, y)
+            self.declare(scopes, x)
+            return ["let", x, b]
+        inner = self.visible(scopes)
+        if c < 9 and inner:                          # (y = e) + e'  /  e' + (y = e)   on a local of the expansion
+            y = self.r.choice(inner)
+            self.count("expr_set")
+            if self.r.chance(1, 2):
+                b = ["set", y, init()]
+                return ["+", b, self.atom(scopes, outer, forced_unhyg)]
+            left = self.atom(scopes, outer, forced_unhyg)
+            return ["+", left, ["set", y, init()]]
+        if c < 10 and inner:                         # (x := (y = e))
+            x, y = self.r.choice(POOL), self.r.choice(inner)
+            self.count("expr_let_set")
+            b = ["set", y, init()]
+            self.declare(scopes, x)
+            return ["let", x, b]
+        if self.unhyg and not forced_unhyg:          # an unhygienic splice that assigns / binds: !{u} + e'
+            cands = inner + [x for x in outer if x not in inner]
+            if cands and self.r.chance(1, 2):
+                self.count("expr_unhyg_set")
+                return ["+", ["u", ["set", self.r.choice(cands), self.operand(scopes, outer, True)]],
+                        self.atom(scopes, outer, forced_unhyg)]
+            x = self.r.choice(POOL)
+            self.count("expr_unhyg_let")
+            b = ["u", ["let", x, self.operand(scopes, outer, True)]]
+            self.declare(scopes, x)
+            return ["+", b, ["v", x] if self.r.chance(1, 2) else self.atom(scopes, outer, forced_unhyg)]
+        x = self.r.choice(POOL)
+        self.count("expr_let_only")
+        b = ["let", x, init()]
+        self.declare(scopes, x)
+        return ["+", b, ["n", str(self.r.below(9))]]
+
+    def operand(self, scopes, outer, forced_unhyg):
         if self.r.chance(1, 3):
             return ["+", self.atom(scopes, outer, forced_unhyg), self.atom(scopes, outer, forced_unhyg)]
         return self.atom(scopes, outer, forced_unhyg)
+
+    def expr(self, scopes, outer, forced_unhyg=False):
+        if self.binders and self.r.below(10) < self.binders:
+            return self.binder(scopes, outer, forced_unhyg, 1)
+        return self.operand(scopes, outer, forced_unhyg)
+
+    def single(self, scopes, outer):
+        """an expansion that is ONE statement which is not itself a declaration: a println / an expression statement
+        / a hygienic or unhygienic assignment whose operand binds"""
+        c = self.r.below(10)
+        e = self.binder(scopes, outer, False, 1)
+        self.count("single_expression_body")
+        if c < 5:
+            return [["pr", e]]
+        if c < 8:
+            return [["ex", e]]
+        if self.unhyg:
+            cands = [x for x in outer]
+            if cands:
+                return [["us", ["set", self.r.choice(cands), self.binder(scopes, outer, True, 0)]]]
+        return [["if", e, ["seq", ["pr", self.atom(scopes, outer, False)]], "skip"]]
 
     def body(self, scopes, outer, n, depth):
         """scopes: list of lists of names declared in the frames since the boundary (mutated)"""
@@ -265,7 +362,10 @@ class Gen:
                     self.count("pr")
                     out.append(["pr", self.expr(scopes, outer)])
             elif c < 72:
-                if self.unhyg and self.r.chance(1, 6):
+                if self.binders and self.r.chance(1, 4):
+                    self.count("ex")
+                    out.append(["ex", self.expr(scopes, outer)])
+                elif self.unhyg and self.r.chance(1, 6):
                     self.count("unhyg_pr")
                     out.append(["us", ["pr", self.expr(scopes, outer, True)]])
                 else:
@@ -278,8 +378,8 @@ class Gen:
                 scopes.pop()
             elif c < 90 and depth > 0:
                 self.count("if")
-                cond = self.expr(scopes + [[]], outer)
-                scopes.append([])
+                scopes.append([])          # the frame of the condition: its binders are visible in both branches
+                cond = self.expr(scopes, outer)
                 scopes.append([])
                 t = ["seq"] + self.body(scopes, outer, self.r.range(1, 2), depth - 1)
                 scopes.pop()
@@ -322,10 +422,20 @@ def gen_family(rng, idx):
     -> list of (suffix, program, in_method), dist"""
     unhyg = idx % 2 == 1
     outer = [x for x in POOL if rng.chance(1, 2)]
-    g = Gen(rng, unhyg, outer)
-    body = ["seq"] + g.body([[]], outer, rng.range(2, 5), 2)
+    # family kinds (idx mod 3): 0 = the expansion is ONE non-declaration statement whose expression binds;
+    # 1 = 1..5 statements, binders/assignments in nested expression positions; 2 = first-generation bodies
+    kind = idx % 3
+    g = Gen(rng, unhyg, outer, binders=(0, 5, 0)[kind] if kind else 10)
+    if kind == 0:
+        body = ["seq"] + g.single([[]], outer)
+    elif kind == 1:
+        body = ["seq"] + g.body([[]], outer, rng.range(1, 5), 2)
+    else:
+        body = ["seq"] + g.body([[]], outer, rng.range(2, 5), 2)
     twice = rng.chance(1, 3)
     site = rng.below(4)            # 0 plain, 1 inside do-block, 2 inside if-branch, 3 caller declares in a block around
+    if kind == 0:
+        site = (0, 3, 0, 1, 3, 2)[(idx // 3) % 6]
     in_method = rng.chance(1, 3)
     probe = rng.chance(1, 6)       # read a body-only name after the call: must be rejected unless the caller defines it
     progs = []
@@ -347,6 +457,7 @@ def gen_family(rng, idx):
             mid = call
         progs.append(("s%d" % mask, ["seq"] + head + mid + tail, in_method))
     g.dist["family_unhyg" if unhyg else "family_hyg"] = 1
+    g.dist["family_kind_%s" % ("single_expression", "nested_binders", "statements_only")[kind]] = 1
     g.dist["site_%d" % site] = 1
     return progs, g.dist
 
@@ -368,6 +479,33 @@ def has_unhyg_stmt(x):
     if x[0] == "us":
         return True
     return any(has_unhyg_stmt(y) for y in x[1:])
+
+
+def has_expr_binder(x, stmt_pos=True):
+    """a `x := e` / `x = e` that is not itself a statement (operand, println argument, condition, initialiser)"""
+    if isinstance(x, str):
+        return False
+    k = x[0]
+    if k in ("let", "set"):
+        return (not stmt_pos) or has_expr_binder(x[2], False)
+    if k in ("seq", "blk", "mac", "us"):
+        return any(has_expr_binder(y, True) for y in x[1:])
+    if k == "if":
+        return has_expr_binder(x[1], False) or has_expr_binder(x[2], True) or has_expr_binder(x[3], True)
+    if k in ("pr", "ex", "+", "u"):
+        return any(has_expr_binder(y, False) for y in x[1:])
+    return False
+
+
+def single_expression_expansion(x):
+    """some macro body is ONE statement that is not a declaration / assignment statement"""
+    if isinstance(x, str):
+        return False
+    if x[0] == "mac":
+        ss = stmts_of(x[1])
+        if len(ss) == 1 and ss[0][0] in ("pr", "ex", "us") and has_expr_binder(ss[0]):
+            return True
+    return any(single_expression_expansion(y) for y in x[1:])
 
 
 def shadowing_decl(x, frames=None):
@@ -506,7 +644,9 @@ def run_cases(ctx, elk, m, cases, tag):
             key = "crash:" + crash[0]
         else:
             key = "mismatch:" + ("verdict" if (om[0] != want[0] or oh[0] != want[0]) else "output") + \
-                (":unhygienic" if has_unhyg_operand(prog) or has_unhyg_stmt(prog) else ":hygienic")
+                (":unhygienic" if has_unhyg_operand(prog) or has_unhyg_stmt(prog) else ":hygienic") + \
+                (":single-expression-expansion-binds" if single_expression_expansion(prog)
+                 else ":binder-in-expression" if has_expr_binder(prog) else "")
         what = "%s: model %s %s; macro program on elk %s; hand expansion on elk %s" % (
             bad[0][0], mv, mo, om, oh)
         fails.append((size(prog), key, what, cid, prog, om, oh, mv, mo, in_method))
